@@ -341,6 +341,20 @@ class Evaluator(object):
     def _normalise_block(stmts):
         """`X = []` followed by `for v in it: [if c:] X.append(elt)` is the list comprehension `X = [elt for v in it if c]`: both spellings get the same term.
         (only when the loop body is exactly that, has no else, and X is not read inside the loop)"""
+        # pass 0: `for a, b in itertools.product(A, B): body` -> `for a in A: for b in B: body`
+        def unproduct(a):
+            if isinstance(a, ast.For) and not a.orelse and isinstance(a.target, ast.Tuple) and isinstance(a.iter, ast.Call) and not a.iter.keywords \
+                    and ast.unparse(a.iter.func) in ('itertools.product', 'product') and len(a.iter.args) == len(a.target.elts) >= 2 \
+                    and not any(isinstance(n, (ast.Break,)) for b in a.body for n in ast.walk(b)):
+                body = a.body
+                for tgt, it in reversed(list(zip(a.target.elts, a.iter.args))):
+                    loop = ast.For(target=tgt, iter=it, body=body, orelse=[])
+                    ast.copy_location(loop, a)
+                    body = [loop]
+                ast.fix_missing_locations(body[0])
+                return body[0]
+            return a
+        stmts = [unproduct(a) for a in stmts]
         # pass 1: `for i in range(len(xs)): x = xs[i]; ...` -> `for i, x in enumerate(xs): ...` (so that pass 2 sees one loop form)
         pre = []
         for a in stmts:
@@ -754,6 +768,25 @@ class Evaluator(object):
         outs = []
         for it, s0 in self.ev(node.iter, st):
             base = len(s0.events)
+            if it[0] in ('tuple', 'list') and 0 < len(it[1]) <= 8 and not any(x[0] == 'star' for x in it[1]):
+                # a loop over a literal sequence (a pair of bounds, a dispatch table of lambdas): one pass per item, in order
+                states = [s0]
+                broken = []
+                for item in it[1]:
+                    new = []
+                    for s in states:
+                        for s1 in self.assign_target(node.target, item, s, node):
+                            for status, s2 in self.exec_block(node.body, s1):
+                                (broken if status == 'break' else new).append(s2)
+                    states = new
+                    if not states:
+                        break
+                res = []
+                for s in states:
+                    res.extend(self.exec_block(node.orelse, s) if node.orelse else [(None, s)])
+                res.extend((None, s) for s in broken)
+                outs.extend(self._join_after(res, base))
+                continue
             lid = self.loop_id(node)
             zero = s0.fork()                       # zero iterations
             s0.loops = s0.loops + (lid,)
@@ -918,7 +951,41 @@ class Evaluator(object):
             return [(st.env[node.id], st)]
         if node.id in ('True', 'False', 'None'):
             return [(const({'True': True, 'False': False, 'None': None}[node.id]), st)]
+        g = self._new_global(node.id)
+        if g is not None:
+            return [(g, st)]
         return [(('name', node.id), st)]
+
+    def _new_global(self, name):
+        """a module-level constant that did not exist when the rules were written (a dispatch table, a tuple of names, a message) is read as its value:
+        assigned once, from literals / lambdas / containers of those"""
+        mod = self.fi.module
+        vals = mod.assigns.get(name)
+        if not vals or len(vals) != 1:
+            return None
+        from .rules import known_globals
+        if '%s.%s' % (mod.name, name) in known_globals():
+            return None
+        cache = getattr(mod, '_global_terms', None)
+        if cache is None:
+            cache = mod._global_terms = {}
+        if name in cache:
+            return cache[name]
+        cache[name] = None           # (cycles)
+        expr = vals[0]
+        ok_nodes = (ast.Tuple, ast.List, ast.Dict, ast.Set, ast.Constant, ast.Lambda, ast.Name, ast.Attribute, ast.Load, ast.arguments, ast.arg, ast.Call, ast.keyword,
+                    ast.Compare, ast.BoolOp, ast.UnaryOp, ast.BinOp, ast.IfExp, ast.Subscript, ast.Starred, ast.cmpop, ast.boolop, ast.unaryop, ast.operator, ast.expr_context)
+        if not all(isinstance(n, ok_nodes) for n in ast.walk(expr)):
+            return None
+        try:
+            sub = Evaluator(self.P, self.fi, mode='join', inline=self.inline)
+            sub._depth = self._depth + 50
+            res = sub.ev(expr, State())
+            term = res[0][0] if len(res) == 1 else None
+        except AnalysisError:
+            term = None
+        cache[name] = term
+        return term
 
     def ex_Attribute(self, node, st):
         return [(('attr', t, node.attr), s) for t, s in self.ev(node.value, st)]
@@ -1128,7 +1195,17 @@ class Evaluator(object):
         s = st.fork()
         nev = len(s.events)
         gens = []
-        for gi, g in enumerate(node.generators):
+        generators = []
+        for g in node.generators:
+            # `for a, b in itertools.product(A, B)` is `for a in A for b in B`
+            if isinstance(g.target, ast.Tuple) and isinstance(g.iter, ast.Call) and not g.iter.keywords and ast.unparse(g.iter.func) in ('itertools.product', 'product') \
+                    and len(g.iter.args) == len(g.target.elts) >= 2:
+                pairs = list(zip(g.target.elts, g.iter.args))
+                for k, (tgt, it) in enumerate(pairs):
+                    generators.append(ast.comprehension(target=tgt, iter=it, ifs=(g.ifs if k == len(pairs) - 1 else []), is_async=0))
+            else:
+                generators.append(g)
+        for gi, g in enumerate(generators):
             lid = ('c', depth, gi)
             it = self.ev(g.iter, s)[0][0]
             self.bind_loop_target(g.target, it, lid, s, node)
@@ -1160,7 +1237,97 @@ class Evaluator(object):
         return self._comp(node, 'dict', [node.key, node.value], st)
 
     # calls --------------------------------------------------------------------
+    _OPERATOR_FUNCS = {'or_': '|', 'and_': '&', 'xor': '^', 'add': '+', 'sub': '-', 'mul': '*', 'truediv': '/', 'floordiv': '//', 'mod': '%', 'pow': '**'}
+    _OPERATOR_CMPS = {'eq': '==', 'ne': '!=', 'lt': '<', 'le': '<=', 'gt': '>', 'ge': '>=', 'is_': 'is', 'is_not': 'is not', 'contains': None}
+
+    def _functional_form(self, node, st):
+        """map / filter / functools.reduce / list(generator) spelled as the comprehension or loop they stand for (same terms as the explicit spelling)"""
+        fn = node.func
+        name = fn.id if isinstance(fn, ast.Name) else (ast.unparse(fn) if isinstance(fn, ast.Attribute) else None)
+        if name is None or node.keywords or any(isinstance(a, ast.Starred) for a in node.args):
+            return None
+        if isinstance(fn, ast.Name) and name in st.env:
+            return None                                    # shadowed by a local
+        var = ast.Name(id='_fv%d' % self._depth, ctx=ast.Load())
+        tgt = ast.Name(id=var.id, ctx=ast.Store())
+        new = None
+        if name == 'map' and len(node.args) == 2:
+            new = ast.GeneratorExp(elt=ast.Call(func=node.args[0], args=[var], keywords=[]), generators=[ast.comprehension(target=tgt, iter=node.args[1], ifs=[], is_async=0)])
+        elif name == 'filter' and len(node.args) == 2:
+            test = var if (isinstance(node.args[0], ast.Constant) and node.args[0].value is None) else ast.Call(func=node.args[0], args=[var], keywords=[])
+            new = ast.GeneratorExp(elt=var, generators=[ast.comprehension(target=tgt, iter=node.args[1], ifs=[test], is_async=0)])
+        elif name in ('list',) and len(node.args) == 1 and isinstance(node.args[0], ast.GeneratorExp):
+            new = ast.ListComp(elt=node.args[0].elt, generators=node.args[0].generators)
+        elif name in ('list',) and len(node.args) == 1 and isinstance(node.args[0], ast.Call) and isinstance(node.args[0].func, ast.Name) \
+                and node.args[0].func.id in ('map', 'filter') and node.args[0].func.id not in st.env and len(node.args[0].args) == 2 and not node.args[0].keywords:
+            inner = node.args[0]
+            if inner.func.id == 'map':
+                new = ast.ListComp(elt=ast.Call(func=inner.args[0], args=[var], keywords=[]), generators=[ast.comprehension(target=tgt, iter=inner.args[1], ifs=[], is_async=0)])
+            else:
+                test = var if (isinstance(inner.args[0], ast.Constant) and inner.args[0].value is None) else ast.Call(func=inner.args[0], args=[var], keywords=[])
+                new = ast.ListComp(elt=var, generators=[ast.comprehension(target=tgt, iter=inner.args[1], ifs=[test], is_async=0)])
+        elif name in ('functools.reduce', 'reduce') and len(node.args) == 3:
+            # acc = init; for x in xs: acc = f(acc, x)
+            acc = '_facc%d' % self._depth
+            body = [ast.Assign(targets=[ast.Name(id=acc, ctx=ast.Store())], value=node.args[2]),
+                    ast.For(target=tgt, iter=node.args[1], orelse=[],
+                            body=[ast.Assign(targets=[ast.Name(id=acc, ctx=ast.Store())], value=ast.Call(func=node.args[0], args=[ast.Name(id=acc, ctx=ast.Load()), var], keywords=[]))])]
+            for b in body:
+                ast.copy_location(b, node)
+                ast.fix_missing_locations(b)
+            self._depth += 1
+            try:
+                outs = self.exec_block(body, st)
+            finally:
+                self._depth -= 1
+            res = []
+            for status, s in outs:
+                res.append((s.env.get(acc, ('unknown', 'reduce')), s))
+            return res
+        if new is None:
+            return None
+        ast.copy_location(new, node)
+        ast.fix_missing_locations(new)
+        self._depth += 1
+        try:
+            return self.ev(new, st)
+        finally:
+            self._depth -= 1
+
+    def _tuple_arity(self, call):
+        """number of results of a repository function whose every return statement is a tuple literal of one length (None otherwise)"""
+        f = call[1]
+        target = None
+        try:
+            if f[0] == 'name':
+                target = self.fi.module.functions.get(f[1])
+                if target is None:
+                    r = self.P.resolve_name(self.fi.module, f[1])
+                    if r is not None and r[0] == 'func':
+                        target = r[1]
+            elif f[0] == 'attr' and f[1] == ('param', 'self') and self.fi.cls is not None:
+                m = self.P.lookup(self.fi.cls, f[2])
+                if m is not None and m.kind == 'func':
+                    target = m.value
+        except Exception:
+            target = None
+        if target is None:
+            return None
+        lens = set()
+        for n in ast.walk(target.node):
+            if isinstance(n, (ast.FunctionDef, ast.Lambda)) and n is not target.node:
+                return None
+            if isinstance(n, ast.Return):
+                if isinstance(n.value, ast.Tuple) and not any(isinstance(e, ast.Starred) for e in n.value.elts):
+                    lens.add(len(n.value.elts))
+                else:
+                    return None
+        return lens.pop() if len(lens) == 1 else None
+
     def ex_Call(self, node, st):
+        ff = self._functional_form(node, st)
+        if ff is not None:
+            return ff
         out = []
         kwnodes = [k.value for k in node.keywords]
         for ts, s in self.ev_seq([node.func] + list(node.args) + kwnodes, st):
@@ -1182,9 +1349,33 @@ class Evaluator(object):
             for a in args:
                 if a[0] == 'star' and a[1][0] in ('tuple', 'list') and not any(x[0] == 'star' for x in a[1][1]):
                     xargs.extend(a[1][1])
+                elif a[0] == 'star' and a[1][0] == 'call' and self._tuple_arity(a[1]):
+                    # f(*g(...)) where g always returns an n-tuple: the n items
+                    xargs.extend(('item', a[1], k) for k in range(self._tuple_arity(a[1])))
                 else:
                     xargs.append(a)
             kws = self._old_keyword_names(f, kws)
+            d = T.dotted(f)
+            # functools.partial(f, ...) is kept as a partial application; calling it later supplies the remaining arguments
+            if d in ('functools.partial', 'partial') and xargs and not any(k == '**' for k, _ in kws):
+                out.append((('partial', xargs[0], tuple(xargs[1:]), tuple(kws)), s))
+                continue
+            # operator.or_(a, b) and friends are the operators
+            if d and d.startswith('operator.') and len(xargs) == 2 and not kws:
+                on = d.split('.', 1)[1]
+                if on in self._OPERATOR_FUNCS:
+                    out.append((('binop', self._OPERATOR_FUNCS[on], xargs[0], xargs[1]), s))
+                    continue
+                if self._OPERATOR_CMPS.get(on):
+                    out.append((T.mkcmp(self._OPERATOR_CMPS[on], xargs[0], xargs[1]), s))
+                    continue
+            # dict(base, k=v, ...) is base with the entries k set (the spelling `base[k] = v` of a local mapping gives the same term)
+            if d == 'dict' and len(xargs) == 1 and kws and not any(k == '**' for k, _ in kws):
+                t = xargs[0]
+                for k, v in kws:
+                    t = ('setitem', t, const(k), v)
+                out.append((t, s))
+                continue
             call = ('call', f, tuple(xargs), tuple(kws))
             out.extend(self._do_call(call, node, s))
         return out
@@ -1203,6 +1394,15 @@ class Evaluator(object):
         if f[0] == 'lambda' and len(call[2]) == f[1] and not call[3]:
             body = subst_bv(f[2], f[3], call[2])
             return [(body, st)]
+        if f[0] == 'partial':
+            merged = dict(f[3])
+            merged.update(dict(call[3]))
+            return self._do_call(('call', f[1], tuple(f[2]) + tuple(call[2]), tuple(merged.items())), node, st)
+        if f[0] == 'attr' and f[1] == ('name', 'operator') and len(call[2]) == 2 and not call[3]:
+            if f[2] in self._OPERATOR_FUNCS:
+                return [(('binop', self._OPERATOR_FUNCS[f[2]], call[2][0], call[2][1]), st)]
+            if self._OPERATOR_CMPS.get(f[2]):
+                return [(T.mkcmp(self._OPERATOR_CMPS[f[2]], call[2][0], call[2][1]), st)]
         # a callee chosen by a conditional expression (`g = a.f if c else a.h; g(x)`): the call is distributed over the alternatives
         if f[0] == 'ifexp':
             atom, neg = canon_atom(f[1])
@@ -1239,7 +1439,27 @@ class Evaluator(object):
         if fi.cls is not None or (f[0] == 'attr' and self._is_method_style(fi, f)):
             if f[0] == 'attr' and not self._is_module_attr(f):
                 args = [f[1]] + args
-        if any(a[0] == 'star' for a in args) or any(k == '**' for k, _ in call[3]):
+        starkw = [v for k, v in call[3] if k == '**']
+        passthrough = None
+        if starkw:
+            # **m can be bound when m is a known extension of a mapping that goes to the callee's own **kwargs: m = base{k1: v1, ...}; the explicit
+            # entries become keywords, the base is handed on. Anything else cannot be bound precisely.
+            m = starkw[0]
+            extra = []
+            while m[0] == 'setitem' and m[2][0] == 'const' and isinstance(m[2][1], str):
+                extra.append((m[2][1], m[3]))
+                m = m[1]
+            if len(starkw) == 1 and fi.kwarg and m[0] in ('param', 'dict', 'name', 'setitem', 'phi', 'call', 'attr') and not any(k in kws for k, _ in extra):
+                for k, v in reversed(extra):
+                    kws.setdefault(k, v)
+                passthrough = m
+            elif len(starkw) == 1 and m[0] == 'dict' and not m[1]:
+                for k, v in reversed(extra):
+                    kws.setdefault(k, v)
+            else:
+                self.emit(st, 'call', call, node=node)
+                return [(call, st)]
+        if any(a[0] == 'star' for a in args):
             # cannot bind precisely
             self.emit(st, 'call', call, node=node)
             return [(call, st)]
@@ -1268,7 +1488,13 @@ class Evaluator(object):
             elif p in defaults:
                 env[p] = self._const_default(defaults[p])
         if fi.kwarg:
-            env[fi.kwarg] = ('dict', tuple((const(k), v) for k, v in kws.items()))
+            if passthrough is not None:
+                t = passthrough
+                for k, v in kws.items():
+                    t = ('setitem', t, const(k), v)
+                env[fi.kwarg] = t
+            else:
+                env[fi.kwarg] = ('dict', tuple((const(k), v) for k, v in kws.items()))
         saved_env = st.env
         # closures: local functions see the caller's locals
         if f[0] == 'localfn':
